@@ -372,6 +372,31 @@ def genesis (cd : Codecs) (cfg : Cfg) (db : Store) (g : Block) (x : Exec) : St :
     ++ saveBlockOps cfg db g x.events g.hdr.height false
   { db := applyBatch dbC ops, cache := [g], log := [] }
 
+/-! ### Executer.Init on a database with the start-up genesis block `g` (restart with given inputs) -/
+
+/-- `Chain.GenesisBlockExist` as `Executer.Init` calls it (new `Chain` object: the block cache is empty,
+everything is read from the database). `some true`: the block stored at the height of `g` is `g`;
+`some false`: nothing is stored at that height and the database holds no block at all (first start);
+`none`: an error - another block is stored at that height, the stored block cannot be read, or no block is
+stored at that height although the database holds a chain (a chain built from a genesis block at another
+height; fix C04-foreign-genesis-height: this case was answered `some false` before and `Init` processed
+the foreign genesis block on top of the stored chain). -/
+def genesisExist (cd : Codecs) (db : Store) (g : Block) : Option Bool :=
+  match getBlockByHeight cd db g.hdr.height with
+  | some b => if b.hdr.id = g.hdr.id then some true else none
+  | none => if (dbIterate db [4] 1 true).isEmpty then some false else none
+
+/-- `Executer.Init` with genesis block `g` (a start of the node on whatever the database holds):
+`GenesisBlockExist`, then `processGenesisBlock` (only on an empty database; `x` is the result of
+executing `g`) and `PrepareCache`. `cfg` is the configuration of the new `Chain` object, its genesis
+height is the height of `g`. A start that is refused leaves the new `Chain` with an empty block cache. -/
+def restartG (cd : Codecs) (cfg : Cfg) (s : St) (g : Block) (x : Exec) : St × Res :=
+  let cfg' : Cfg := { cfg with genesisHeight := g.hdr.height }
+  match genesisExist cd s.db g with
+  | none => ({ s with cache := [] }, .err)
+  | some true => restart cd cfg' s
+  | some false => ({ genesis cd cfg' s.db g x with log := s.log }, .ok)  -- `PrepareCache`: the genesis block is cached
+
 /-! ### Executer.process -/
 
 structure RecvFlags where
